@@ -88,6 +88,8 @@ def translate(repo):
 # bank configurations
 # ------------------------------------------------------------------------------------------------
 def scale_arg(name, low):
+    if isinstance(name, dict):   # a fully specified scale (fixed corner configurations)
+        return dict(name)
     if name == "linear":
         return dict(name="linear", low_hz=0.0, slope_hz=1.0)
     if name == "octave":
@@ -129,6 +131,11 @@ def gen_configs(ctx, n):
             for order in (3, 4, 6):
                 fixed.append(dict(bank="gammatone", scale="mel", rate=8000, low=0.0, high=None, num_filts=7,
                                   order=order, max_centered=mc, l2=False, erb=erb))
+    # a linear scale with slope != 1 and an offset: the bank layout goes through both directions of the scale
+    for an in (False, True):
+        fixed.append(dict(bank="tri", scale=dict(name="linear", low_hz=40.0, slope_hz=1.25), rate=8000, low=0.0, high=3000.0, num_filts=6, analytic=an))
+    fixed.append(dict(bank="tri", scale=dict(name="linear", low_hz=10.0, slope_hz=2.0), rate=8000, low=100.0, high=None, num_filts=5, analytic=False))
+    fixed.append(dict(bank="gabor", scale=dict(name="linear", low_hz=40.0, slope_hz=0.5), rate=8000, low=0.0, high=None, num_filts=7, l2=False, erb=False))
     fixed.append(dict(bank="gammatone", scale="mel", rate=16000, low=20.0, high=None, num_filts=5, order=6,
                       max_centered=True, l2=False, erb=False))
     fixed.append(dict(bank="gammatone", scale="bark", rate=8000, low=20.0, high=None, num_filts=5, order=2,
